@@ -1377,9 +1377,16 @@ void base_str<CharT>::EnsureAlloced(size_t amount, bool keepold)
     strdata<CharT>* newdata = new (buf) strdata<CharT>;
     newbuffer = reinterpret_cast<CharT*>(buf + sizeof(strdata<CharT>));
 
+    newdata->alloced = amount;
+
     if (keepold)
     {
         copy(newbuffer, m_data->data());
+        newdata->len = m_data->len;
+    }
+    else
+    {
+        newbuffer[0] = 0;
     }
 
     m_data->DelRef();
